@@ -396,7 +396,7 @@ impl DomainParticipantEntity {
                 self.topic_counter.to_ne_bytes()[1],
                 USER_DEFINED_TOPIC,
             ]);
-            self.topic_counter += 1;
+            self.topic_counter = self.topic_counter.checked_add(1)?;
             let status_condition = DcpsStatusCondition::default();
             let mut topic = TopicEntity::new(
                 qos,
